@@ -820,33 +820,87 @@ static Value caseCalc(const Value& c)
   }
   out["ref"] = ref;
 
-  // reference B: direct dense solve of the assembled standard system (primal / dual forms)
-  if (form == "primal" || form == "dual")
+  // reference B: direct dense solve (long double) of the standard system that the specification
+  // gives as the reference of the form (FastPathsAlgebra: StdUK / StdSK, RefBayes, RefColCok, RefXvalid)
   {
-    int nt2 = neq + nbfl;
-    LMat A(nt2, std::vector<long double>(nt2, 0)), B(nt2, std::vector<long double>(nrhs, 0)), W;
-    for (int i = 0; i < neq; i++)
+    auto toL = [](const AMatrix& m) {
+      LMat r(m.getNRows(), std::vector<long double>(m.getNCols(), 0));
+      for (int i = 0; i < m.getNRows(); i++) for (int j = 0; j < m.getNCols(); j++) r[i][j] = m.getValue(i, j);
+      return r;
+    };
+    LMat S = toL(Sigma), S0 = toL(Sigma0), S00 = toL(Sigma00);
+    LMat Xm = (nbfl > 0) ? toL(X) : LMat(neq, std::vector<long double>());
+    LMat X0m = (nbfl > 0) ? toL(X0) : LMat(nrhs, std::vector<long double>());
+    std::vector<long double> Zl(Z.begin(), Z.end());
+    // mean added back to the estimate of right-hand side r (simple kriging): variable r / nt
+    std::vector<long double> addm(nrhs, 0.L);
+    if (drift == "sk") for (int r = 0; r < nrhs; r++) addm[r] = means[r / nt];
+    int b = nbfl;
+    if (form == "bayes")
     {
-      for (int j = 0; j < neq; j++) A[i][j] = Sigma.getValue(i, j);
-      for (int l = 0; l < nbfl; l++) { A[i][neq + l] = X.getValue(i, l); A[neq + l][i] = X.getValue(i, l); }
-      for (int r = 0; r < nrhs; r++) B[i][r] = Sigma0.getValue(i, r);
+      // simple kriging of Z - X PM with the covariance inflated by the prior: S + X PC X^t
+      LMat PC(b, std::vector<long double>(b, 0));
+      for (int i = 0; i < b; i++) for (int j = 0; j < b; j++) PC[i][j] = priorCov.getValue(i, j);
+      auto XPC = [&](const LMat& A) { LMat r(A.size(), std::vector<long double>(b, 0));
+        for (size_t i = 0; i < A.size(); i++) for (int j = 0; j < b; j++) for (int k = 0; k < b; k++) r[i][j] += A[i][k] * PC[k][j];
+        return r; };
+      LMat XP = XPC(Xm), X0P = XPC(X0m);
+      for (int i = 0; i < neq; i++) for (int j = 0; j < neq; j++) for (int k = 0; k < b; k++) S[i][j] += XP[i][k] * Xm[j][k];
+      for (int i = 0; i < neq; i++) for (int r = 0; r < nrhs; r++) for (int k = 0; k < b; k++) S0[i][r] += XP[i][k] * X0m[r][k];
+      for (int r = 0; r < nrhs; r++) for (int q2 = 0; q2 < nrhs; q2++) for (int k = 0; k < b; k++) S00[r][q2] += X0P[r][k] * X0m[q2][k];
+      for (int i = 0; i < neq; i++) for (int k = 0; k < b; k++) Zl[i] -= Xm[i][k] * priorMean[k];
+      for (int r = 0; r < nrhs; r++) for (int k = 0; k < b; k++) addm[r] += X0m[r][k] * priorMean[k];
+      b = 0;
     }
-    for (int l = 0; l < nbfl; l++)
-      for (int r = 0; r < nrhs; r++) B[neq + l][r] = X0.getValue(r, l);
+    std::vector<int> keep;          // data equations kept (cross-validation removes some)
+    for (int i = 0; i < neq; i++) keep.push_back(i);
+    std::vector<int> rhsCols;       // right-hand sides
+    for (int r = 0; r < nrhs; r++) rhsCols.push_back(r);
+    bool xvform = (form == "xvalid");
+    if (xvform)
+    {
+      keep.clear();
+      for (int i = 0; i < neq; i++) { bool rm = false; for (int e : rankXvEqs) if (e == i) rm = true; if (!rm) keep.push_back(i); }
+    }
+    int nk = (int)keep.size();
+    int nextra = (form == "colcok") ? 1 : 0;     // the collocated datum
+    int nr = xvform ? (int)rankXvEqs.size() : nrhs;
+    int nt2 = nk + nextra + b;
+    LMat A(nt2, std::vector<long double>(nt2, 0)), B(nt2, std::vector<long double>(nr, 0)), W;
+    std::vector<long double> Zx;
+    for (int i = 0; i < nk; i++)
+    {
+      for (int j = 0; j < nk; j++) A[i][j] = S[keep[i]][keep[j]];
+      for (int l = 0; l < b; l++) { A[i][nk + nextra + l] = Xm[keep[i]][l]; A[nk + nextra + l][i] = Xm[keep[i]][l]; }
+      for (int r = 0; r < nr; r++) B[i][r] = xvform ? S[keep[i]][rankXvEqs[r]] : S0[keep[i]][r];
+      Zx.push_back(Zl[keep[i]]);
+    }
+    if (nextra)
+    {
+      // collocated datum: variable q at the (single) target = right-hand side column q
+      for (int i = 0; i < nk; i++) { A[i][nk] = S0[keep[i]][q]; A[nk][i] = S0[keep[i]][q]; }
+      A[nk][nk] = S00[q][q];
+      for (int l = 0; l < b; l++) { A[nk][nk + 1 + l] = X0m[q][l]; A[nk + 1 + l][nk] = X0m[q][l]; }
+      for (int r = 0; r < nr; r++) B[nk][r] = S00[q][r];
+      Zx.push_back(Zp[q]);
+    }
+    for (int l = 0; l < b; l++)
+      for (int r = 0; r < nr; r++) B[nk + nextra + l][r] = xvform ? Xm[rankXvEqs[r]][l] : X0m[r][l];
     if (solveDense(A, B, W))
     {
       Value lam = Value::array(), mu = Value::array(), es = Value::array(), sd = Value::array(), vz = Value::array();
-      for (int i = 0; i < neq; i++) for (int r = 0; r < nrhs; r++) lam.push(num((double)W[i][r]));
-      for (int l = 0; l < nbfl; l++) for (int r = 0; r < nrhs; r++) mu.push(num((double)(-W[neq + l][r])));
-      // Sigma0 columns are variable-major over targets: column r = v * nt + t
-      for (int r = 0; r < nrhs; r++)
+      for (int i = 0; i < nk + nextra; i++) for (int r = 0; r < nr; r++) lam.push(num((double)W[i][r]));
+      for (int l = 0; l < b; l++) for (int r = 0; r < nr; r++) mu.push(num((double)(-W[nk + nextra + l][r])));
+      for (int r = 0; r < nr; r++)
       {
-        long double e = (drift == "sk") ? (long double)means[r / nt] : 0.L, wb = 0, vzz = 0;
-        for (int i = 0; i < neq; i++) e += W[i][r] * Z[i];
+        long double e = xvform ? (long double)(drift == "sk" ? means[rankXvVars[r]] : 0.) : addm[r];
+        long double wb = 0, vzz = 0;
+        for (int i = 0; i < nk + nextra; i++) e += W[i][r] * Zx[i];
         for (int i = 0; i < nt2; i++) wb += W[i][r] * B[i][r];
-        for (int i = 0; i < neq; i++) vzz += W[i][r] * B[i][r];
-        for (int l = 0; l < nbfl; l++) vzz -= W[neq + l][r] * B[neq + l][r];
-        long double var = Sigma00.getValue(r, r) - wb;
+        for (int i = 0; i < nk + nextra; i++) vzz += W[i][r] * B[i][r];
+        for (int l = 0; l < b; l++) vzz -= W[nk + nextra + l][r] * B[nk + nextra + l][r];
+        long double c00 = xvform ? S[rankXvEqs[r]][rankXvEqs[r]] : S00[r][r];
+        long double var = c00 - wb;
         es.push(num((double)e)); sd.push(num(var > 0 ? (double)sqrtl(var) : 0.)); vz.push(num((double)vzz));
       }
       dense["lambda"] = lam; dense["mu"] = mu; dense["estim"] = es; dense["stdev"] = sd; dense["varz"] = vz;
